@@ -606,6 +606,11 @@ pub fn check_built_index<D: Distance>(
 }
 
 pub fn run_history<D: Distance>(spec: &HistorySpec, cfg: &RunCfg, st: &mut CaseStats) -> Result<(), Fail> {
+    run_history_dump::<D>(spec, cfg, st).map(|_| ())
+}
+
+/// Same as run_history, returning the committed raw dump and the final model of every index.
+pub fn run_history_dump<D: Distance>(spec: &HistorySpec, cfg: &RunCfg, st: &mut CaseStats) -> Result<(RawDump, Vec<IndexModel>), Fail> {
     let metric = spec.metric;
     let tenv = TestEnv::new(DEFAULT_MAP).map_err(Fail::Infra)?;
     let (db, raw) = setup::<D>(&tenv)?;
@@ -767,5 +772,7 @@ pub fn run_history<D: Distance>(spec: &HistorySpec, cfg: &RunCfg, st: &mut CaseS
             }
         }
     }
-    Ok(())
+    let rtxn = tenv.env.read_txn().map_err(|e| Fail::Infra(format!("read_txn: {e}")))?;
+    let d = raw_dump(&rtxn, raw).map_err(Fail::Infra)?;
+    Ok((d, model))
 }
